@@ -212,6 +212,23 @@ void dump_current() {
     close(fd);
   }
 }
+char g_hang_path[512] = {0};
+// per-case watchdog: a case that runs for minutes is treated as "no verdict" (the stream stops, the tape is kept)
+void on_alarm(int) {
+  if (g_hang_path[0] && g_cur) {
+    int fd = open(g_hang_path, O_WRONLY | O_CREAT | O_TRUNC, 0644);
+    if (fd >= 0) {
+      size_t off = 0;
+      while (off < g_cur_n) {
+        ssize_t w = write(fd, g_cur + off, g_cur_n - off);
+        if (w <= 0) break;
+        off += size_t(w);
+      }
+      close(fd);
+    }
+  }
+  _exit(47);
+}
 void on_signal(int sig) {
   dump_current();
   signal(sig, SIG_DFL);
@@ -414,6 +431,7 @@ int main(int argc, char** argv) {
   size_t maxlen = 4096;
   long budget = 3000;
   double max_seconds = 0;
+  unsigned case_seconds = 300;
   unsigned base = 2, len = 0, shard_i = 0, shard_n = 1;
   for (int i = 1; i < argc; ++i) {
     std::string a = argv[i];
@@ -449,6 +467,8 @@ int main(int argc, char** argv) {
       budget = atol(next().c_str());
     else if (a == "--max-seconds")
       max_seconds = atof(next().c_str());
+    else if (a == "--case-seconds")
+      case_seconds = unsigned(atoi(next().c_str()));
     else if (a == "--name") {
       std::cout << vf::harness_name() << "\n";
       return 0;
@@ -515,10 +535,14 @@ int main(int argc, char** argv) {
     Agg agg;
     auto t0 = std::chrono::steady_clock::now();
     std::vector<uint8_t> tape;
+    snprintf(g_hang_path, sizeof g_hang_path, "%s/hang-%s.tape", outdir.c_str(), stream.c_str());
+    signal(SIGALRM, on_alarm);
     auto one = [&](const std::vector<uint8_t>& tp) -> bool {
       g_cur = tp.data();
       g_cur_n = tp.size();
+      alarm(case_seconds);
       Result r = run_one(tp);
+      alarm(0);
       agg.add(r);
       if (r.code == VIOL || r.code == EXC || r.code == ORACLE) {
         agg.fail_cls = r.cls;
